@@ -339,6 +339,18 @@ func c14PanicSite() string {
 	}
 }
 
+// c14Viol records a violation; after the first case of a signature on this worker only the count is
+// bumped (the recorder keeps the first case per signature anyway), which keeps runs on a tree with
+// millions of failing cases fast.
+func c14Viol(c *vr.Report, seen map[string]bool, key string, cs c14Case, mk func() string) {
+	if seen[key] {
+		c.Violation(key, "", nil)
+		return
+	}
+	seen[key] = true
+	c.Violation(key, mk(), cs)
+}
+
 func c14Guard(f func()) (site, msg string) {
 	defer func() {
 		if e := recover(); e != nil {
@@ -418,7 +430,7 @@ type c14Case struct {
 
 var c14AggAS = map[string]uint32{"2": 65010, "4": 70010, "trans": c14Trans}
 
-func c14Round(c *vr.Report, cs c14Case) {
+func c14Round(c *vr.Report, seen map[string]bool, cs c14Case) {
 	c.Eval()
 	orig := append(c14Expand(cs.Confed, 0), c14Expand(cs.Segs, len(cs.Confed))...)
 	has4, has4NonConfed := false, false
@@ -434,7 +446,9 @@ func c14Round(c *vr.Report, cs c14Case) {
 	}
 	ctx := fmt.Sprintf("confed=%v", len(cs.Confed) > 0)
 	bad := func(key, format string, a ...any) {
-		c.Violationf("C14:roundtrip:"+key, cs, "AS_PATH %s AGGREGATOR %s: %s", c14Short(orig), cs.Agg, fmt.Sprintf(format, a...))
+		c14Viol(c, seen, "C14:roundtrip:"+key, cs, func() string {
+			return fmt.Sprintf("AS_PATH %s AGGREGATOR %s: %s", c14Short(orig), cs.Agg, fmt.Sprintf(format, a...))
+		})
 	}
 
 	// the message as a 4-octet speaker holds it
@@ -602,7 +616,9 @@ func c14Round(c *vr.Report, cs c14Case) {
 		shape = "as-path-confed=present"
 	}
 	common := func(key, format string, a ...any) {
-		c.Violationf("C14:"+key+":"+shape, cs, "round trip of AS_PATH %s: %s", c14Short(orig), fmt.Sprintf(format, a...))
+		c14Viol(c, seen, "C14:"+key+":"+shape, cs, func() string {
+			return fmt.Sprintf("round trip of AS_PATH %s: %s", c14Short(orig), fmt.Sprintf(format, a...))
+		})
 	}
 	switch {
 	case !all4 || !numOK:
@@ -644,7 +660,7 @@ func c14Round(c *vr.Report, cs c14Case) {
 
 // ---- space 2: arbitrary (AS_PATH, AS4_PATH) pairs ----
 
-func c14Pair(c *vr.Report, cs c14Case, asBytes, as4Bytes []byte, asp, as4 []c14Seg) {
+func c14Pair(c *vr.Report, seen map[string]bool, cs c14Case, asBytes, as4Bytes []byte, asp, as4 []c14Seg) {
 	c.Eval()
 	if asBytes == nil {
 		asp, as4 = c14Expand(cs.Segs, 0), c14Expand(cs.As4, 0)
@@ -657,7 +673,9 @@ func c14Pair(c *vr.Report, cs c14Case, asBytes, as4Bytes []byte, asp, as4 []c14S
 		shape = "as-path-confed=present"
 	}
 	bad := func(key, format string, a ...any) {
-		c.Violationf("C14:"+key, cs, "AS_PATH %s (confederation segments: %s) AS4_PATH %s: %s", c14Short(asp), confedShape, c14Short(as4), fmt.Sprintf(format, a...))
+		c14Viol(c, seen, "C14:"+key, cs, func() string {
+			return fmt.Sprintf("AS_PATH %s (confederation segments: %s) AS4_PATH %s: %s", c14Short(asp), confedShape, c14Short(as4), fmt.Sprintf(format, a...))
+		})
 	}
 	wire := c14WriteUpdate([]byte{0x40, 1, 1, 0}, asBytes, []byte{0x40, 3, 4, 192, 0, 2, 1}, as4Bytes)
 	var rx *bgp.BGPMessage
@@ -791,7 +809,7 @@ func TestVerif_C14_roundtrip(t *testing.T) {
 		if err := r.LoadReplay(&cs); err != nil {
 			t.Fatal(err)
 		}
-		c14Round(r, cs)
+		c14Round(r, map[string]bool{}, cs)
 		return
 	}
 	maxSegs := 3
@@ -807,34 +825,45 @@ func TestVerif_C14_roundtrip(t *testing.T) {
 		}
 	}
 	runs := c14ConfedRuns()
+	// the thorough tier's 4-segment paths are crossed with a reduced set of confederation runs
+	runs4 := [][]c14SegD{{}, {{c14CSEQ, 1, 0}}, {{c14CSEQ, 2, 1}}, {{c14CSET, 1, 1}}, {{c14CSEQ, 2, 0}, {c14CSET, 1, 1}}}
 	paths := c14Seqs(alpha, maxSegs)
 	r.Bounds["plain_segments_max"] = maxSegs
 	r.Bounds["segment_types"] = "AS_SEQUENCE, AS_SET"
 	r.Bounds["segment_lengths"] = []int{1, 2, 254, 255}
 	r.Bounds["asn_patterns"] = "all 2-octet; all 4-octet; alternating 4-octet/2-octet; AS_TRANS literally present (23456, 4-octet, 2-octet repeating); the second member of a segment is 65535 resp. 65536"
 	r.Bounds["confed_runs"] = fmt.Sprintf("%d: none; one CONFED_SEQ or CONFED_SET of 1 or 2 members in the applicable patterns; CONFED_SEQ(2)+CONFED_SET(1); CONFED_SET(1)+CONFED_SEQ(2)", len(runs))
+	if maxSegs > 3 {
+		r.Bounds["confed_runs_for_4_segment_paths"] = "5: none; CONFED_SEQ(1) 2-octet; CONFED_SEQ(2) 4-octet; CONFED_SET(1) 4-octet; CONFED_SEQ(2)+CONFED_SET(1)"
+	}
 	r.Bounds["aggregator"] = "none on every path; {2-octet 65010, 4-octet 70010, AS_TRANS 23456} on every path with <=1 plain segment"
 	r.Bounds["plain_segment_sequences"] = len(paths)
 	W := vr.Workers()
 	// phase 0 (sequential, simplest first): paths with <=1 plain segment, all aggregator options; the
 	// case kept for each failure signature is then a short one and the same on every run
+	seen0 := map[string]bool{}
 	for _, p := range paths {
 		if len(p) > 1 {
 			break
 		}
 		for _, run := range runs {
 			for _, ag := range []string{"none", "2", "4", "trans"} {
-				c14Round(r, c14Case{Space: 1, Confed: run, Segs: p, Agg: ag})
+				c14Round(r, seen0, c14Case{Space: 1, Confed: run, Segs: p, Agg: ag})
 			}
 		}
 	}
 	r.Parallel(W, func(w int, c *vr.Report) {
 		n := 0
+		seen := map[string]bool{}
 		for _, p := range paths {
 			if len(p) <= 1 {
 				continue
 			}
-			for _, run := range runs {
+			rs := runs
+			if len(p) > 3 {
+				rs = runs4
+			}
+			for _, run := range rs {
 				n++
 				if n%W != w {
 					continue
@@ -843,7 +872,7 @@ func TestVerif_C14_roundtrip(t *testing.T) {
 				if c.WantSample() && n%7919 == 0 {
 					c.Sample(cs)
 				}
-				c14Round(c, cs)
+				c14Round(c, seen, cs)
 			}
 		}
 	})
@@ -858,7 +887,7 @@ func TestVerif_C14_pairs(t *testing.T) {
 		if err := r.LoadReplay(&cs); err != nil {
 			t.Fatal(err)
 		}
-		c14Pair(r, cs, nil, nil, nil, nil)
+		c14Pair(r, map[string]bool{}, cs, nil, nil, nil, nil)
 		return
 	}
 	var alpha2, alpha4 []c14SegD
@@ -893,14 +922,16 @@ func TestVerif_C14_pairs(t *testing.T) {
 	W := vr.Workers()
 	// phase 0 (sequential, simplest first): both attributes of <=2 segments
 	small := func(i, j int) bool { return len(as[i]) <= 2 && len(as4[j]) <= 2 }
+	seen0 := map[string]bool{}
 	for i := range as {
 		for j := range as4 {
 			if small(i, j) {
-				c14Pair(r, c14Case{Space: 2, Segs: as[i], As4: as4[j]}, pa[i].b, p4[j].b, pa[i].segs, p4[j].segs)
+				c14Pair(r, seen0, c14Case{Space: 2, Segs: as[i], As4: as4[j]}, pa[i].b, p4[j].b, pa[i].segs, p4[j].segs)
 			}
 		}
 	}
 	r.Parallel(W, func(w int, c *vr.Report) {
+		seen := map[string]bool{}
 		for i := range as {
 			if i%W != w {
 				continue
@@ -913,7 +944,7 @@ func TestVerif_C14_pairs(t *testing.T) {
 				if c.WantSample() && (i*len(as4)+j)%100003 == 0 {
 					c.Sample(cs)
 				}
-				c14Pair(c, cs, pa[i].b, p4[j].b, pa[i].segs, p4[j].segs)
+				c14Pair(c, seen, cs, pa[i].b, p4[j].b, pa[i].segs, p4[j].segs)
 			}
 		}
 	})
